@@ -169,4 +169,13 @@ CHECKS["C05"] = {
     "note": "The work unit of the model (construct visit) and of the code (lexer token) are related by calibrated constants; the depth guard is a byte budget in the code and a level count in the model. Totality outside the modelled mechanisms is searched, not proved.",
     "design_ref": "DESIGN.md §4 C05",
 }
+CHECKS["C07"] = {
+    "technique": "Lean 4 proof over M-Susp (save/restore is a round trip on every VM state; hence every run is independent of which awaits suspended, of the host's defaults and of the settlement order of independent promises) + translator: the field lists of BytecodeVM/SavedVmState/TrampolineFrame/SavedTrampolineFrame regenerated from the source and discharged by decide + host-schedule-vs-stub differential",
+    "text": "restore_save (for every VM state - registers, this, open block scopes, try stack, handled exception, completion pending behind finally, suspended callers, environment - restore(save v) = v), "
+            "run_mode_independent / run_schedules_agree / run_host_independent (for every continuation function, every value sequence and every choice of which awaits really suspended, the outcome is that of the run that never suspends), "
+            "lookup_perm (reads from independently settled promises do not depend on settlement order), lossy_not_roundtrip (the pre-repair save is refuted by a witness) are Lean theorems; fields_saved is the obligation over Gen/VmFields.lean "
+            "(a VM field that is neither saved nor reviewed as transient breaks the build). Generated async programs with awaits at every syntactic position run with host-suspending order() under six schedules and with an in-program stub; outcomes must be identical.",
+    "note": "The VM's continuation is an arbitrary function of the listed fields in the model; dependence on interpreter-level state outside them is covered by the differential only. Known finding: await inside an async generator body cannot suspend.",
+    "design_ref": "DESIGN.md §4 C07",
+}
 NOT_YET = {}
